@@ -148,29 +148,74 @@ def merge(R, ctx):
 
 
 def local_function(R, ctx):
+    """no_local_function's process_statement as a transfer function on an abstract `local function f(<params>) <body> end`."""
+    from .. import peval
+    from ..peval import Enum, Struct, UNKNOWN, make
     rid = "C16.local"
     lib = ctx.lib
-    R.rule(rid, "no_local_function: each replacement of the `local function` statement is under has_parameter(name) or under "
-                "`!find_usage.has_found_usage()` after DefaultVisitor::visit_block(function block, FindVariables::new(name))")
+    R.rule(rid, "convert_local_function_to_assign's process_statement, evaluated from its typed tree on `local function f(p..) body end` for "
+                "every combination of {a parameter named f: yes/no} x {the body mentions f: yes/no}: a function whose body refers to its own "
+                "name (and no parameter shadows it) stays a `local function` -- as `local f = function` the reference would miss the local; "
+                "the finder must be asked about the function's own name and about its own body")
     fn = lib.fn("<rules::no_local_function::Processor as process::node_processor::NodeProcessor>::process_statement")
     if not R.require(rid, "anchor", fn is not None, "", "not found"):
         return
-    fa = ctx.an.fa(fn["path"])
-    swaps = [c for c in thir.calls(fn) if c.get("fname") == "swap" and ("#param", 1) in fa.origins(c["args"][0])]
-    R.require(rid, "anchor:replacements", len(swaps) >= 1, ctx.where(fn), "%d statement replacements" % len(swaps))
-    for i, c in enumerate(swaps):
-        conds = list(guards.conditions_of(fa, c))
-        by_param = any(k == "then" and any(x.get("fname") == "has_parameter" for x in thir.walk(cond) if x.get("k") == "Call") for cond, k in conds)
-        by_usage = any(k == "then" and cond.get("k") == "Unary" and any(x.get("fname") == "has_found_usage" for x in thir.walk(cond) if x.get("k") == "Call") for cond, k in conds)
-        R.ob(rid, "process_statement|replacement@%d|guarded" % i, by_param or by_usage, ctx.where(fn, c.get("ln")),
-             "guarded by %s" % ("has_parameter(name)" if by_param else "!has_found_usage()" if by_usage else "NOTHING: a recursive local function loses its self reference"))
-    # the finder walks the function's own block and is built from its name
-    vb = [c for c in thir.calls(fn) if c.get("fname") == "visit_block"]
-    ok = any("mutate_block" in [y.get("fname") for y in fa.source_calls(c["args"][0])] for c in vb)
-    R.ob(rid, "process_statement|walks-own-body", ok, ctx.where(fn), "FindVariables is run over local_function.mutate_block(): %s" % ok)
-    news = [c for c in thir.calls(fn) if c.get("fname") == "new" and "FindVariables" in (c.get("fn") or "")]
-    ok = any("get_name" in [y.get("fname") for y in fa.source_calls(c["args"][0])] for c in news)
-    R.ob(rid, "process_statement|finder-for-own-name", ok, ctx.where(fn), "FindVariables::new(name of the function): %s" % ok)
+    STMT = "nodes::statements::Statement"
+    st = lib.adts.get(STMT)
+    lf = [f["tys"] for v in (st["variants"] if st else []) if v["name"] == "LocalFunction" for f in v["fields"]]
+    if not R.require(rid, "anchor:LocalFunction", len(lf) == 1, "", "Statement::LocalFunction payload"):
+        return
+    LF = lf[0]
+    while LF.startswith("alloc::boxed::Box<"):
+        LF = LF[len("alloc::boxed::Box<"):-1]
+    lfa = lib.adts.get(LF)
+    have = {f["name"] for v in lfa["variants"] for f in v["fields"]} if lfa else set()
+    if not R.require(rid, "anchor:fields", {"identifier", "block", "parameters"} <= have, ctx.adt_where(LF) if lfa else "", "fields of %s: %s" % (LF, sorted(have))):
+        return
+    ID, TI, BLOCK = "nodes::identifier::Identifier", "nodes::typed_identifier::TypedIdentifier", "nodes::block::Block"
+    n = 0
+    for shadow in (False, True):
+        for mentions in (False, True):
+            asked = []
+            body = make(lib, BLOCK, {"#body-of": "f"})
+            params = [make(lib, TI, {"name": make(lib, ID, {"name": "x"})})]
+            if shadow:
+                params.append(make(lib, TI, {"name": make(lib, ID, {"name": "f"})}))
+            func = make(lib, LF, {"identifier": make(lib, ID, {"name": "f"}), "block": body, "parameters": params})
+            stmt = Enum(STMT, "LocalFunction", {"0": func})
+
+            def hook(pe, path, fname, args, node, mentions=mentions, asked=asked):
+                if fname in ("visit_block", "visit_statement", "visit_expression") and len(args) == 2:
+                    target, finder = args
+                    names = finder.fields.get("variables") if isinstance(finder, Struct) else finder
+                    names = names.rest() if isinstance(names, peval.Iter) else names
+                    asked.append((isinstance(target, Struct) and target.fields.get("#body-of"), list(names) if isinstance(names, list) else None))
+                    if mentions and isinstance(target, Struct) and target.fields.get("#body-of") == "f" and isinstance(names, list) and "f" in names:
+                        if isinstance(finder, Struct) and "usage_found" in finder.fields:
+                            finder.fields["usage_found"] = True
+                        else:
+                            return UNKNOWN
+                    return peval.UNIT
+                return NotImplemented
+            pe = peval.PEval(lib, ctx.an, hook)
+            try:
+                pe.call_fn(fn, [Struct("#Processor", {}), stmt])
+            except peval.OutOfFuel:
+                pass
+            n += 1
+            key = "process_statement|param-named-f=%s,body-mentions-f=%s" % (shadow, mentions)
+            if mentions and not shadow:
+                ok = stmt.variant == "LocalFunction"
+                R.ob(rid, key, ok and not pe.unknown_reasons, ctx.where(fn),
+                     "recursive function kept as `local function`" if ok and not pe.unknown_reasons else
+                     ("converted to `local f = function..`: the body's reference to f no longer sees the local" if not ok else "not established (%s)" % pe.unknown_reasons[:2]))
+            else:
+                R.ob(rid, key, stmt.variant in ("LocalFunction", "LocalAssign"), ctx.where(fn), "statement is now Statement::%s" % stmt.variant, nontrivial=False)
+            if not shadow:
+                ok = any(a_[0] == "f" and a_[1] == ["f"] for a_ in asked)
+                R.ob(rid, "process_statement|finder-for-own-name-over-own-body|mentions=%s" % mentions, ok, ctx.where(fn),
+                     "the finder seeded with the function's name walks the function's body: %s" % (asked or "no walk"))
+    R.require(rid, "floor", n >= 4, ctx.where(fn), "%d scenarios" % n)
 
 
 def self_param(R, ctx):
@@ -202,77 +247,100 @@ def self_param(R, ctx):
 
 
 def receiver(R, ctx):
+    """remove_method_call as a transfer function on abstract calls `(<V>):m(args)` / `name:m(args)`."""
+    import copy
+    from .. import peval
+    from ..peval import Enum, Struct, UNKNOWN, NONE, some
     rid = "C16.receiver"
     lib = ctx.lib
-    R.rule(rid, "remove_method_call duplicates the receiver (prefix and first argument) only when it is an identifier or a parenthesised "
-                "expression whose variant has constant-false has_side_effects")
-    free = c06.effect_free_variants(ctx, R, rid)
+    R.rule(rid, "remove_method_call's process_function_call, evaluated from its typed tree on `(<V>):m()` / `(<V>):m(x)` for every Expression "
+                "variant V and on `name:m()`: whenever the call is rewritten (the method is gone) the receiver now occurs twice, so V must be a "
+                "variant for which Evaluator::has_side_effects answers the constant false, the copy passed as first argument must be followed "
+                "by the original arguments, and a multi-valued receiver (`...`, a call) must keep its parentheses there (as last argument it "
+                "would pass every value)")
     fn = lib.fn("<rules::remove_method_call::Processor as process::node_processor::NodeProcessor>::process_function_call")
-    if free is None or not R.require(rid, "anchor", fn is not None, "", "not found"):
+    hse = lib.fn("process::evaluator::Evaluator::has_side_effects")
+    if not R.require(rid, "anchor", fn is not None and hse is not None, "", "process_function_call / has_side_effects not found"):
         return
-    n = 0
-    for m in tables.matches_on(lib, thir.body_of(fn), EXPR):
-        tbl = tables.variant_table(lib, m, EXPR)
-        for v, rows in sorted(tbl.items()):
-            for c, g, arm in rows:
-                if c == "Some":
-                    n += 1
-                    R.ob(rid, "process_function_call|%s" % v, v in free, ctx.where(fn, m.get("ln")),
-                         "receiver variant Expression::%s is duplicated; effect-free: %s" % (v, v in free))
-    R.require(rid, "floor", n >= 4, ctx.where(fn), "%d duplicated receiver variants" % n)
-    # the copy inserted as first argument is in LAST-argument position when the call had no argument: a multi-valued
-    # receiver (`...`, a call) must keep its parentheses there.  Lua's own table of multi-valued expressions is the reference.
+    N = "nodes::"
+    PREFIX, FC, PAR = N + "expressions::prefix::Prefix", N + "function_call::FunctionCall", N + "expressions::parenthese::ParentheseExpression"
+    ARGS, TUP, ID = N + "arguments::Arguments", N + "arguments::TupleArguments", N + "identifier::Identifier"
+    fca = lib.adts.get(FC)
+    have = {f["name"] for v in fca["variants"] for f in v["fields"]} if fca else set()
+    if not R.require(rid, "anchor:FunctionCall-fields", {"prefix", "arguments", "method"} <= have, ctx.adt_where(FC) if fca else "", "fields: %s" % sorted(have)):
+        return
+    variants = [v["name"] for v in lib.adts[EXPR]["variants"]]
     MULTI = {"Call", "VariableArguments"}
-    accepted = set()
-    for m in tables.matches_on(lib, thir.body_of(fn), EXPR):
-        for v, rows in tables.variant_table(lib, m, EXPR).items():
-            if any(c == "Some" for c, g, arm in rows):
-                accepted.add(v)
-    fa = ctx.an.fa(fn["path"])
-    FC = "nodes::function_call::FunctionCall"
-    ins = [c for c in thir.calls(fn) if c.get("fname") == "insert" and len(c["args"]) == 3 and
-           ((FC, "arguments") in fa.origins(c["args"][0]) or any(x.get("fname") == "mutate_arguments" for x in fa.source_calls(c["args"][0])))]
-    if R.require(rid, "anchor:insert-first-argument", len(ins) >= 1, ctx.where(fn), "no `arguments.insert(0, receiver)` found"):
-        for c in ins:
-            x = c["args"][2]
-            while x.get("k") in ("Use", "Scope", "NeverToAny") and "e" in x:
-                x = x["e"]
-            def leaves(e, depth=0):
-                while e.get("k") in ("Use", "Scope", "NeverToAny", "Borrow", "Deref", "Coerce") and "e" in e:
-                    e = e["e"]
-                k = e.get("k")
-                if depth > 12:
-                    return [e]
-                if k == "Block" and "tail" in e:
-                    return leaves(e["tail"], depth + 1)
-                if k == "If" and "else" in e:
-                    return leaves(e["then"], depth + 1) + leaves(e["else"], depth + 1)
-                if k == "Match":
-                    return [l for a in e["arms"] for l in leaves(a["body"], depth + 1)]
-                if k == "Var":
-                    out = []
-                    for src, pre in fa.env.get(e["var"], []):
-                        if pre == () and not str(src.get("k", "#")).startswith("#"):
-                            out += leaves(src, depth + 1)
-                        else:
-                            out.append(e)
-                    return out or [e]
-                return [e]
 
-            def wrapped(q):
-                if q.get("k") == "Call" and q.get("fname") in ("from", "into") and q["args"]:
-                    at = lib.types[lib.strip_refs(q["args"][0]["t"])].get("adt")
-                    rt = lib.types[lib.strip_refs(q["t"])].get("adt")
-                    return at == "nodes::expressions::prefix::Prefix" and rt == EXPR
-                return q.get("k") == "Call" and q.get("fname") == "in_parentheses"
-            # every value the inserted argument can take keeps the parentheses (flows Prefix -> Expression)
-            via_prefix = all(wrapped(q) for q in leaves(x))
-            for v in sorted(MULTI & accepted) or ["(none accepted)"]:
-                ok = via_prefix or v == "(none accepted)"
-                R.ob(rid, "first-argument-single-valued|%s" % v, ok, ctx.where(fn, c.get("ln")),
-                     "no multi-valued receiver variant is duplicated" if v == "(none accepted)" else
-                     ("receiver Expression::%s is multi-valued; the inserted copy %s" % (v, "keeps its parentheses (Prefix -> Expression)" if via_prefix else
-                      "is the bare inner expression: `(...):m()` becomes `(...).m(...)` and passes every value")))
+    def effect_free(V):
+        pe = peval.PEval(lib, ctx.an)
+        try:
+            return pe.call_fn(hse, [Struct("#Evaluator", {}), Enum(EXPR, V, {"0": UNKNOWN})]) is False
+        except peval.OutOfFuel:
+            return False
+
+    def mentions(v, tag="#recv"):
+        out = []
+
+        def rec(x):
+            if isinstance(x, (Enum, Struct)):
+                if x.fields.get("#tag") == tag:
+                    out.append(x)
+                    return
+                for f in x.fields.values():
+                    rec(f)
+            elif isinstance(x, (list, tuple)):
+                for y in x:
+                    rec(y)
+        rec(v)
+        return out
+    n = rewritten = 0
+    for V in variants + ["#identifier-prefix"]:
+        for nargs in (0, 1):
+            if V == "#identifier-prefix":
+                prefix = Enum(PREFIX, "Identifier", {"0": Struct(ID, {"name": "recv", "token": NONE, "#tag": "#recv"})})
+            else:
+                prefix = Enum(PREFIX, "Parenthese", {"0": Struct(PAR, {"expression": Enum(EXPR, V, {"0": Struct("#payload", {"#tag": "#recv"})}), "tokens": NONE})})
+            extra = [Enum(EXPR, "Identifier", {"#tag": "#arg"})][:nargs]
+            call = Struct(FC, {"prefix": prefix, "arguments": Enum(ARGS, "Tuple", {"0": Struct(TUP, {"values": list(extra), "tokens": NONE})}),
+                               "method": some(Struct(ID, {"name": "m", "token": NONE})), "tokens": NONE})
+            for f in have - set(call.fields):
+                call.fields[f] = NONE
+            pe = peval.PEval(lib, ctx.an)
+            try:
+                pe.call_fn(fn, [Struct("#Processor", {}), call])
+            except peval.OutOfFuel:
+                pass
+            n += 1
+            m = call.fields.get("method")
+            key = "%s|args=%d" % (V, nargs)
+            if isinstance(m, Enum) and m.variant == "Some":
+                R.ob(rid, "process_function_call|%s" % key, True, ctx.where(fn), "left as a method call", nontrivial=False)
+                continue
+            if not (isinstance(m, Enum) and m.variant == "None"):
+                R.ob(rid, "process_function_call|%s" % key, False, ctx.where(fn), "outcome not established (%s)" % "; ".join(pe.unknown_reasons[:2]))
+                continue
+            rewritten += 1
+            problems = []
+            if V != "#identifier-prefix" and not effect_free(V):
+                problems.append("receiver Expression::%s is duplicated but has_side_effects is not constant-false for it: it is evaluated twice" % V)
+            args = call.fields.get("arguments")
+            vals = None
+            if isinstance(args, Enum) and isinstance(args.fields.get("0"), Struct):
+                vals = args.fields["0"].fields.get("values")
+            if not isinstance(vals, list) or len(vals) != nargs + 1:
+                problems.append("argument list after the rewrite is %s" % (vals if not isinstance(vals, list) else "%d long" % len(vals)))
+            else:
+                if len(mentions(vals[0])) != 1:
+                    problems.append("first argument is not the receiver")
+                if mentions(vals[1:], "#arg") != extra and nargs:
+                    problems.append("original arguments lost or reordered")
+                if V in MULTI and nargs == 0 and not (isinstance(vals[0], Enum) and vals[0].variant == "Parenthese"):
+                    problems.append("receiver Expression::%s is multi-valued; the inserted copy is the bare expression: `(...):m()` becomes `(...).m(...)` and passes every value" % V)
+            if len(mentions(call.fields.get("prefix"))) != 1:
+                problems.append("the new prefix does not index the receiver")
+            R.ob(rid, "process_function_call|%s" % key, not problems, ctx.where(fn), "; ".join(problems) if problems else "rewritten to receiver.m(receiver, ..) soundly")
+    R.require(rid, "floor", n >= 40 and rewritten >= 8, ctx.where(fn), "%d shapes evaluated, %d rewritten" % (n, rewritten))
 
 
 def run(R, ctx):
